@@ -29,6 +29,7 @@ static void m_lock(void) { RC0(myth_mutex_lock(&g_m)); wit_enter(&g_w, "lock"); 
 static void m_unlock(void) { wit_leave(&g_w, "unlock"); RC0(myth_mutex_unlock(&g_m)); }
 
 static void cv_wait(cvm_t * c) {
+  mv_progress();   /* a thread that got as far as waiting has made progress (matters for crowds: hundreds of waiters start and block one after the other) */
   c->sleeping++;
   wit_leave(&g_w, "cond_wait(enter)");
   int w0 = myth_get_worker_num();
@@ -107,7 +108,7 @@ static void * bb_consumer(void * a) {
 static struct { int k, use_broadcast, delay, open, passed, opener_pos, tokens; int yw[16], ys[16]; } gt;
 static void * gate_waiter(void * a) {
   int me = (int)(intptr_t)a;
-  do_yields(gt.yw[me]);
+  do_yields(gt.yw[me % 16]);
   m_lock();
   while (!gt.open) cv_wait(&g_cv[0]);
   gt.passed++;
@@ -174,7 +175,7 @@ void scen_c05(mt_case * c) {
   g_unlocked = (ub % 3) == 0;
   int token_gate = g_unlocked && (ub & 0x40);
   int max_items = c->tier ? 40 : 8;
-  myth_thread_t th[40]; int nth = 0;
+  static myth_thread_t th[1100]; int nth = 0; int big_gate = 0;
   int ncv = 1;
 
   if (pattern == 0) {
@@ -196,8 +197,12 @@ void scen_c05(mt_case * c) {
     gt.k = rd_range(r, 1, c->tier ? 16 : 8); gt.use_broadcast = (int)rd_below(r, 2); gt.delay = (int)rd_below(r, 6);
     for (int i = 0; i < gt.k; i++) { gt.yw[i] = (int)rd_below(r, 4); gt.ys[i] = token_gate ? (int)rd_below(r, 4) : 0; }
     gt.opener_pos = (int)rd_below(r, (unsigned)gt.k + 1);
+    if (!token_gate && (ub & 0x38) == 0x38) {   /* a crowd: many waiters on one condition variable, around powers of two */
+      big_gate = 1; gt.k = (int[]){ 255, 256, 257, 300, 513, 1025 }[rd_below(r, 6)];
+      if (rd_below(r, 2)) gt.opener_pos = gt.k; else gt.opener_pos = (int)rd_below(r, (unsigned)gt.k + 1);
+    }
     mt_desc("C05 gate waiters=%d opener: %s after %d yields; waiter delays:", gt.k, gt.use_broadcast ? "1 broadcast" : "k signals", gt.delay);
-    for (int i = 0; i < gt.k; i++) mt_desc(" %d", gt.yw[i]);
+    for (int i = 0; i < gt.k && i < 16; i++) mt_desc(" %d", gt.yw[i]);
     mt_desc("\n");
     mt_label(gt.use_broadcast ? "gate_broadcast" : "gate_signal");
   } else {
@@ -212,7 +217,8 @@ void scen_c05(mt_case * c) {
   mt_hash(c->prog.p, c->prog.pos);
 
   mt_allow_prelude = 1;
-  mt_lib_start(c, &e, 0);
+  mt_lib_start(c, &e, big_gate ? 32768 : 0);
+  if (big_gate) mt_label("gate_crowd");
   MT_DIRTY(g_m); Z0(myth_mutex_init(&g_m, 0));
   for (int i = 0; i < ncv; i++) { MT_DIRTY(g_cv[i].cv); Z0(myth_cond_init(&g_cv[i].cv, 0)); }
 
@@ -223,22 +229,22 @@ void scen_c05(mt_case * c) {
   m_unlock();
 
   if (pattern == 0) {
-    for (int j = 0; j < bb.C; j++) Z0(myth_create_ex(&th[nth++], 0, bb_consumer, (void *)(intptr_t)j));
-    for (int i = 0; i < bb.P; i++) Z0(myth_create_ex(&th[nth++], 0, bb_producer, (void *)(intptr_t)i));
+    for (int j = 0; j < bb.C; j++) Z0(mt_create(&th[nth++], bb_consumer, (void *)(intptr_t)j));
+    for (int i = 0; i < bb.P; i++) Z0(mt_create(&th[nth++], bb_producer, (void *)(intptr_t)i));
   } else if (pattern == 1 && token_gate) {
     for (int i = 0; i < gt.k; i++) {
-      if ((gt.opener_pos + i) & 1) { Z0(myth_create_ex(&th[nth++], 0, token_signaller, (void *)(intptr_t)i)); myth_create_ex(&th[nth++], 0, token_waiter, (void *)(intptr_t)i); }
-      else { Z0(myth_create_ex(&th[nth++], 0, token_waiter, (void *)(intptr_t)i)); myth_create_ex(&th[nth++], 0, token_signaller, (void *)(intptr_t)i); }
+      if ((gt.opener_pos + i) & 1) { Z0(mt_create(&th[nth++], token_signaller, (void *)(intptr_t)i)); mt_create(&th[nth++], token_waiter, (void *)(intptr_t)i); }
+      else { Z0(mt_create(&th[nth++], token_waiter, (void *)(intptr_t)i)); mt_create(&th[nth++], token_signaller, (void *)(intptr_t)i); }
     }
   } else if (pattern == 1) {
     int opener_pos = gt.opener_pos;
     for (int i = 0; i < gt.k; i++) {
-      if (i == opener_pos) Z0(myth_create_ex(&th[nth++], 0, gate_opener, 0));
-      myth_create_ex(&th[nth++], 0, gate_waiter, (void *)(intptr_t)i);
+      if (i == opener_pos) Z0(mt_create(&th[nth++], gate_opener, 0));
+      mt_create(&th[nth++], gate_waiter, (void *)(intptr_t)i);
     }
-    if (opener_pos == gt.k) Z0(myth_create_ex(&th[nth++], 0, gate_opener, 0));
+    if (opener_pos == gt.k) Z0(mt_create(&th[nth++], gate_opener, 0));
   } else {
-    for (int i = ts.n - 1; i >= 0; i--) Z0(myth_create_ex(&th[nth++], 0, ts_thread, (void *)(intptr_t)i));
+    for (int i = ts.n - 1; i >= 0; i--) Z0(mt_create(&th[nth++], ts_thread, (void *)(intptr_t)i));
   }
   for (int i = 0; i < nth; i++) { Z0(myth_join(th[i], 0)); mv_progress(); }
   mt_lib_finish();
